@@ -8,6 +8,10 @@ pub struct VHashMap<K, V> { m: std::collections::HashMap<K, V> }
 impl<K: std::cmp::Eq + std::hash::Hash, V> VHashMap<K, V> {
     pub uninterp spec fn view(&self) -> Map<K, V>;
     #[verifier::external_body]
+    pub fn get(&self, k: &K) -> (r: Option<&V>)
+        ensures match r { Some(v) => self@.contains_key(*k) && *v == self@[*k], None => !self@.contains_key(*k) }
+    { self.m.get(k) }
+    #[verifier::external_body]
     pub fn get_mut(&mut self, k: &K) -> (r: Option<&mut V>)
         ensures match r {
             Some(v) => old(self)@.contains_key(*k) && *v == old(self)@[*k] && final(self)@ == old(self)@.insert(*k, *final(v)),
@@ -41,4 +45,36 @@ pub open spec fn forest_ordered(d: &Document) -> bool {
     forall|k: u32, i: int| #![trigger d.bookmark_table@[k].children@[i]]
         d.bookmark_table@.contains_key(k) && 0 <= i < d.bookmark_table@[k].children@.len()
         ==> d.bookmark_table@[k].children@[i] > k && d.bookmark_table@.contains_key(d.bookmark_table@[k].children@[i])
+}
+
+// ----- adjust_zero_pages / recursive_fix_pages: what may change, and why the walk ends -----
+/// `b` is `a` except for the pages of zero-page parents: lists, ids, children, the key set, and the page of every bookmark that
+/// has a real page or no children are as before (title, colour and format too: see `same_but_page`)
+pub open spec fn only_zero_pages_fixed(a: &Document, b: &Document) -> bool {
+    b.max_bookmark_id == a.max_bookmark_id && b.bookmarks == a.bookmarks && b.bookmark_table@.dom() == a.bookmark_table@.dom()
+    && forall|k: u32| #[trigger] a.bookmark_table@.contains_key(k) ==> same_but_page(a.bookmark_table@[k], b.bookmark_table@[k])
+}
+pub open spec fn same_but_page(x: Bookmark, y: Bookmark) -> bool {
+    y.children == x.children && y.id == x.id && y.title == x.title && y.format == x.format && y.color == x.color
+    && (x.page.0 != 0 || x.children@.len() == 0 ==> y.page == x.page)
+}
+pub open spec fn all_above(s: Seq<u32>, lb: int) -> bool { forall|i: int| 0 <= i < s.len() ==> s[i] > lb }
+/// the smallest id of a list (2^32 for the empty list): the termination measure of the walk is max_bookmark_id + 1 - seq_min(list),
+/// which falls from a list to the children of any of its members because children carry greater ids (forest_ordered)
+pub open spec fn seq_min(s: Seq<u32>) -> int decreases s.len() {
+    if s.len() == 0 { u32::MAX as int + 1 } else { let m = seq_min(s.drop_last()); if (s.last() as int) < m { s.last() as int } else { m } }
+}
+proof fn lemma_min_le(s: Seq<u32>, i: int) requires 0 <= i < s.len() ensures seq_min(s) <= s[i] decreases s.len() {
+    if i < s.len() - 1 { lemma_min_le(s.drop_last(), i); }
+}
+proof fn lemma_min_above(s: Seq<u32>, lb: int) requires all_above(s, lb), s.len() > 0 ensures seq_min(s) > lb, seq_min(s) <= u32::MAX decreases s.len() {
+    let t = s.drop_last();
+    assert(s.last() > lb);
+    if t.len() == 0 {
+        assert(seq_min(t) == u32::MAX as int + 1);
+    } else {
+        assert(all_above(t, lb)) by { assert forall|i: int| 0 <= i < t.len() implies t[i] > lb by { assert(t[i] == s[i]); } }
+        lemma_min_above(t, lb);
+    }
+    assert(seq_min(s) == if (s.last() as int) < seq_min(t) { s.last() as int } else { seq_min(t) });
 }
